@@ -21,7 +21,7 @@ run() {
   first=$(grep -m1 'what:' $log | sed 's/^ *what: //' | cut -c1-160 | tr '|' '/')
   echo "| $S | $P | $rc | $n | $first |" >> $out
 }
-for d in seeded/C??-?; do
+for d in $(ls -d seeded/C??-* | sort); do
   S=$(basename $d); run $S ${S%%-*}
 done
 for pair in "$@"; do run "${pair%%:*}" "${pair##*:}"; done
